@@ -34,6 +34,7 @@ def run(cmd, cwd=None):
     r = subprocess.run(cmd, cwd=cwd, stdout=subprocess.PIPE, stderr=subprocess.STDOUT, text=True, errors='replace')
     if SCRATCH[0]:
         r.stdout = r.stdout.replace(SCRATCH[0], '<scratch>')       # diagnostics must not depend on the name of the scratch directory
+    r.stdout = re.sub(r'/tmp/cc[A-Za-z0-9_]+\.(o|s|c|ltrans\d*\.o|res)', '<tmp>', r.stdout)      # ... nor on the compiler driver's temporary file names
     return r
 
 
